@@ -1,4 +1,5 @@
 import Operon.Model.Telomere
+import Operon.Gen.TelomereTranslated
 /-! Helper lemmas for C09 (lifecycle automaton and lock discipline).  Core Lean only. -/
 namespace Operon.Telomere
 
@@ -475,5 +476,17 @@ theorem pathsOk_some (T : Table) (k : LockKind) (nm : String) (ls : List (List L
     | some x =>
       simp only [hi, hx, Bool.and_eq_true, List.all_eq_true] at h2
       exact ⟨m, x, rfl, hx, h2.1, by simpa using h2.2 l hl⟩
+
+/-! ## vocabulary for the agreement with the translated source -/
+
+/-- what a call of the hand-written automaton yields after the callbacks `evs` already emitted, in the format of
+    the translated methods (`Operon/Gen/TelomereTranslated.lean`) -/
+def stepOut (cfg : Cfg) (s : State) (evs : List Ev) (op : Op) : State × List Ev × Ret :=
+  ((step cfg s op).st, evs ++ (step cfg s op).evs, (step cfg s op).ret)
+
+theorem pyOr_eq_renewAmount (cfg : Cfg) (n : Option Nat) : pyOr n cfg.maxOps = renewAmount cfg n := by
+  cases n with
+  | none => rfl
+  | some a => cases a <;> rfl
 
 end Operon.Telomere
